@@ -327,7 +327,8 @@ def run(ctx):
                 continue
             r.ok(tag + "result-compared", c.loc(), "the result of %s() decides a branch (Unanimous -> bb%d, pending -> bb%d)" % (c.name, tr, fa))
             # Unanimous edge must not come back to this call (leaves the loop)
-            back = b.reachable_from([tr]) & {c.block}
+            # (constants decide the branches on the way: `if rescind_stop_vote(..) { break }` with the helper answering `true` on this edge)
+            back = b.reachable_cp([tr]) & {c.block}
             r.check(not back, tag + "unanimous-leaves-loop", c.loc(), "on Unanimous the task leaves its loop (the vote site is not reachable again)",
                     "on Unanimous the task keeps running: it can dispatch work after the runtime decided to stop")
             if c.name == "rescind":
